@@ -1755,6 +1755,12 @@ func (ck *checker) replay(kind string, raw json.RawMessage) (any, string, error)
 			return nil, "", err
 		}
 		return c, ck.checkFormat(c), nil
+	case "piecewise":
+		var c pieceCase
+		if err := json.Unmarshal(raw, &c); err != nil {
+			return nil, "", err
+		}
+		return c, ck.checkPiecewise(c), nil
 	}
 	return nil, "", fmt.Errorf("unknown replay kind %q", kind)
 }
@@ -1812,6 +1818,16 @@ func TestC17(t *testing.T) {
 		c := genUnpackCase(t, nat)
 		if msg := ck.checkUnpack(c); msg != "" {
 			FailCase(t, "unpack", c, "%s", msg)
+		}
+	})
+	RunRapid(rec, "C17/piecewise-unpack", n/2, 6, func(t *rapid.T) {
+		c, ok := genPieceCase(t, nat)
+		if !ok {
+			rec.Discard("piecewise: fewer than two value options")
+			return
+		}
+		if msg := ck.checkPiecewise(c); msg != "" {
+			FailCase(t, "piecewise", c, "%s", msg)
 		}
 	})
 	RunRapid(rec, "C17/quote", n, 3, func(t *rapid.T) {
